@@ -449,11 +449,14 @@ def generate_solution(ix, R):
                 if [g for g in e.guards if g.test is not None]:
                     why.append('%s is conditional on %s' % (unparse(e.node.func), [g.text() for g in e.guards]))
         R.check('5.order', 'DOM', site, stmt, not why, key='; '.join(why), detail='; '.join(why), loc=f.loc())
-        sts = {unparse(e.target_ast): e for e in fl.of('store') if lp in e.loops and len(e.loops) == 1}
-        okk = "sol_values['Spectra']" in sts and "sol_values['Profiles']" in sts and \
-            'generate_spectrum_output' in fmt(fl, sts["sol_values['Spectra']"].value) and \
-            'generate_profiles' in fmt(fl, sts["sol_values['Profiles']"].value)
-        okk = okk and not sts["sol_values['Spectra']"].guards and not sts["sol_values['Profiles']"].guards
+        from sa.helpers import dict_facts
+        facts5 = dict_facts(fl)
+        sts = {k_: [x for x in v_ if lp in x[1].loops and len(x[1].loops) == 1] for k_, v_ in facts5.items()
+               if k_ in ('Spectra', 'Profiles')}
+        okk = all(len(sts.get(k_, [])) == 1 and not sts[k_][0][1].guards for k_ in ('Spectra', 'Profiles')) and \
+            'generate_spectrum_output' in fmt(fl, sts['Spectra'][0][0]) and \
+            'generate_profiles' in fmt(fl, sts['Profiles'][0][0]) and \
+            fl.tab.equal(sts['Spectra'][0][2], sts['Profiles'][0][2])
         R.check('5.keys', 'ARG', site, "results are stored under 'Spectra' and 'Profiles'", okk,
                 key='stores %s' % sorted(sts), detail='stores %s' % sorted(sts), loc=f.loc())
         # every solution's dictionary ends up in the result under its own id, with the sampler's extras, and is returned
